@@ -55,6 +55,7 @@ fn fam_parse(v: &Value) -> Family {
             "Exp3" => Family::Exp3,
             "GaussDecayOff" => Family::GaussDecayOff,
             "OLeary" => Family::OLeary,
+            o if o.starts_with("ExpN") => Family::ExpN(o[4..].parse().unwrap()),
             o => panic!("family {}", o),
         };
     }
@@ -478,7 +479,9 @@ fn run_case<T: Sc>(ctx: &Ctx, c: &Case, prop: &str, tt: &TTable, seed: u64) {
                 }
                 let amp_f = if q.abs() > 0.0 { ampl / q.abs() } else { f64::INFINITY };
                 let rounding = 64.0 * eps * amp_f * (dim as f64);
-                if !(rounding <= 1e-2) || !comparable {
+                // the band is a function of the covariance the library reports: no conditioning requirement, only the
+                // cancellation inside the quadratic form limits the comparison
+                if !(rounding <= 1e-2) {
                     continue;
                 }
                 compared_any = true;
